@@ -42,7 +42,14 @@ def run(ctx, focus="C05"):
     for i in range(ndefs):
         d = gen.gen_definition(ctx.rng, n_state=ctx.rng.choice([1, 2, 3, 3]), n_control=ctx.rng.choice([0, 1]),
                                n_calib=ctx.rng.choice([0, 0, 1]), n_sensors=ctx.rng.choice([1, 2]), transcend=(i % 6 == 5), depth=2)
+        if i % 4 == 1 and len(d.state) >= 2:
+            # a sensor that observes two different states directly (H has one non-zero per row): S is still not diagonal
+            # when those states are correlated in the prior
+            rn = gen.fresh_names(ctx.rng, 2, {x.name for x in d.all_symbols()} | {r for rd in d.sensors.values() for r in rd})
+            d.sensors["direct9"] = {rn[0]: d.state[0], rn[1]: d.state[1]}
         process, sensor = eh.make_noises(ctx.rng, d)
+        if "direct9" in sensor:
+            sensor["direct9"] = {r: v / 64 for r, v in sensor["direct9"].items()}     # precise sensor: correlation matters
         pts = [gen.gen_point(ctx.rng, d) for _ in range(npts)]
         cal = pts[0]["cal"]
         filtering = ctx.rng.choice([None, 1000.0])
